@@ -52,12 +52,17 @@ func runWriters(c *lib.Ctx, h []lib.SOp) (outs [3][]byte, panicked string) {
 			panicked = fmt.Sprint(r)
 		}
 	}()
+	// whatever directive an earlier call ended with (flags, width, precision) is that call's business
+	pollute := func() { _ = redact.Sprintf("%+08.3f|%-6d|%#x|% d", 1.5, 2, 3, 4) }
+	pollute()
 	var sb redact.StringBuilder
 	runWriterOps(c, h, &sb, &sb)
 	s0 := string(sb.RedactableString())
+	pollute()
 	outs[0] = []byte(s0)
 	s1 := string(redact.Sprintfn(func(w redact.SafePrinter) { runWriterOps(c, h, w, w) })) // no copy: the returned string itself
 	outs[1] = []byte(s1)
+	pollute()
 	s2 := string(redact.Sprint(sfOps{c, h}))
 	outs[2] = []byte(s2)
 	// a result must not change once returned: later printing (here: through pooled printers) must leave it alone
